@@ -44,9 +44,9 @@ import (
 	"github.com/hashicorp/consul/agent/consul/state"
 	"github.com/hashicorp/consul/agent/consul/stream"
 	"github.com/hashicorp/consul/agent/grpc-external/services/peerstream"
+	"github.com/hashicorp/consul/agent/netutil"
 	"github.com/hashicorp/consul/agent/structs"
 	"github.com/hashicorp/consul/api"
-	"github.com/hashicorp/consul/agent/netutil"
 	"github.com/hashicorp/consul/proto/private/pbpeering"
 	"github.com/hashicorp/consul/proto/private/pbpeerstream"
 	"github.com/hashicorp/consul/proto/private/pbservice"
@@ -120,37 +120,37 @@ type Op struct {
 }
 
 type Case struct {
-	ID      int       `json:"id"`
-	World   int       `json:"world"`
-	Step    int       `json:"step"`
-	Kind    string    `json:"kind"` // upsert | list | export
-	Gen     string    `json:"gen"`
-	VIP     bool      `json:"vip"`
-	Peer    string    `json:"peer"`
-	Service string    `json:"service,omitempty"`
-	Export  []Inst    `json:"export,omitempty"`
-	Names   []string  `json:"names,omitempty"`
-	Before  *Cat      `json:"before,omitempty"`
-	After   *Cat      `json:"after,omitempty"`
-	Ops     []Op      `json:"ops,omitempty"`
-	Err     int       `json:"err"`
-	ErrMsg  string    `json:"errmsg,omitempty"`
-	HNodes  []string  `json:"hnodes,omitempty"`
-	HSvcs   [][2]string `json:"hsvcs,omitempty"`
-	HChks   []ChkRow  `json:"hchks,omitempty"`
-	HNames  []string  `json:"hnames,omitempty"`
-	Flags   map[string]bool `json:"flags,omitempty"`
-	Oracle  string    `json:"oracle"`
+	ID      int                    `json:"id"`
+	World   int                    `json:"world"`
+	Step    int                    `json:"step"`
+	Kind    string                 `json:"kind"` // upsert | list | export
+	Gen     string                 `json:"gen"`
+	VIP     bool                   `json:"vip"`
+	Peer    string                 `json:"peer"`
+	Service string                 `json:"service,omitempty"`
+	Export  []Inst                 `json:"export,omitempty"`
+	Names   []string               `json:"names,omitempty"`
+	Before  *Cat                   `json:"before,omitempty"`
+	After   *Cat                   `json:"after,omitempty"`
+	Ops     []Op                   `json:"ops,omitempty"`
+	Err     int                    `json:"err"`
+	ErrMsg  string                 `json:"errmsg,omitempty"`
+	HNodes  []string               `json:"hnodes,omitempty"`
+	HSvcs   [][2]string            `json:"hsvcs,omitempty"`
+	HChks   []ChkRow               `json:"hchks,omitempty"`
+	HNames  []string               `json:"hnames,omitempty"`
+	Flags   map[string]bool        `json:"flags,omitempty"`
+	Oracle  string                 `json:"oracle"`
 	Sig     map[string]interface{} `json:"sig,omitempty"`
-	ToCoq   bool      `json:"to_coq"`
+	ToCoq   bool                   `json:"to_coq"`
 	// export side
-	Entry    []ExpSvc `json:"entry,omitempty"`
-	Typical  []string `json:"typical,omitempty"`
-	Connect  []string `json:"connect,omitempty"`
-	Chains   []string `json:"chains,omitempty"`
-	PeerKnown bool    `json:"peer_known"`
+	Entry     []ExpSvc `json:"entry,omitempty"`
+	Typical   []string `json:"typical,omitempty"`
+	Connect   []string `json:"connect,omitempty"`
+	Chains    []string `json:"chains,omitempty"`
+	PeerKnown bool     `json:"peer_known"`
 	BadChains []string `json:"bad_chains,omitempty"`
-	GotSvcs  []string `json:"got_svcs,omitempty"`
+	GotSvcs   []string `json:"got_svcs,omitempty"`
 	GotChains []string `json:"got_chains,omitempty"`
 	// replay material: the raw events in a form the harness can re-run
 	Replay *ReplayWorld `json:"replay,omitempty"`
@@ -230,12 +230,14 @@ func chkRow(c *structs.HealthCheck) ChkRow {
 		STags: h48(c.ServiceTags), Status: st,
 		Body: h48(struct {
 			N, No, O string
-			D       structs.HealthCheckDefinition
+			D        structs.HealthCheckDefinition
 		}{c.Name, c.Notes, c.Output, c.Definition})}
 }
 
 func sortCat(c *Cat) {
-	sort.Slice(c.Nodes, func(i, j int) bool { return fmt.Sprint(c.Nodes[i].Peer, "\x00", c.Nodes[i].Name) < fmt.Sprint(c.Nodes[j].Peer, "\x00", c.Nodes[j].Name) })
+	sort.Slice(c.Nodes, func(i, j int) bool {
+		return fmt.Sprint(c.Nodes[i].Peer, "\x00", c.Nodes[i].Name) < fmt.Sprint(c.Nodes[j].Peer, "\x00", c.Nodes[j].Name)
+	})
 	sort.Slice(c.Svcs, func(i, j int) bool {
 		return fmt.Sprint(c.Svcs[i].Peer, "\x00", c.Svcs[i].Node, "\x00", c.Svcs[i].ID) < fmt.Sprint(c.Svcs[j].Peer, "\x00", c.Svcs[j].Node, "\x00", c.Svcs[j].ID)
 	})
@@ -365,10 +367,10 @@ type backend struct {
 func (b *backend) Subscribe(req *stream.SubscribeRequest) (*stream.Subscription, error) {
 	return nil, fmt.Errorf("not used")
 }
-func (b *backend) IsLeader() bool                                  { return true }
-func (b *backend) SetLeaderAddress(string)                         {}
-func (b *backend) GetLeaderAddress() string                        { return "" }
-func (b *backend) ValidateProposedPeeringSecret(string) (bool, error) { return true, nil }
+func (b *backend) IsLeader() bool                                           { return true }
+func (b *backend) SetLeaderAddress(string)                                  {}
+func (b *backend) GetLeaderAddress() string                                 { return "" }
+func (b *backend) ValidateProposedPeeringSecret(string) (bool, error)       { return true, nil }
 func (b *backend) PeeringSecretsWrite(*pbpeering.SecretsWriteRequest) error { return nil }
 func (b *backend) PeeringTerminateByID(*pbpeering.PeeringTerminateByIDRequest) error {
 	return nil
@@ -1090,11 +1092,11 @@ type snapClass struct {
 }
 
 // classify evaluates, on the received data and the prior catalog only, the hypotheses of the
-// theorems C17_mirror_partial / C17_same_peer_frame / C17_frame_topology_partial:
+// theorems C17_mirror_partial / C17_same_peer_frame (the upstream flags only describe the input):
 //
 //	coherent  = Snapshot.snap_coh        rename    = not MirrorTop.ids_keep_names
 //	idsStable = check_ids_keep_owner     owned     = slots_owned
-//	hasUps / storedUps = not (Topo.quiet and no upstreams in the snapshot)
+//	hasUps / storedUps = the snapshot / a stored row of the peer names upstreams
 func classify(in *oracleIn) snapClass {
 	cl := snapClass{coherent: true, idsStable: true, owned: true, canonNames: true}
 	p, sn := in.peer, in.service
